@@ -29,6 +29,17 @@ VP_FN(void, vp_ss_ins_int, (string_stream *s, long long v)) { *s << (int)v; } VP
 VP_FN(void, vp_ss_ins_uint, (string_stream *s, unsigned long long v)) { *s << (unsigned int)v; } VP_END(void)
 VP_FN(void, vp_ss_ins_llong, (string_stream *s, long long v)) { *s << v; } VP_END(void)
 VP_FN(void, vp_ss_ins_double, (string_stream *s, double v)) { *s << v; } VP_END(void)
+// the remaining text inserters: wchar_t*, char8_t*, and the STL wide strings / views
+VP_FN(void, vp_ss_ins_c8z, (string_stream *s, const char *z)) { *s << reinterpret_cast<const char8_t *>(z); } VP_END(void)
+#if defined(ST_ENABLE_STL_STRINGS)
+VP_FN(void, vp_ss_ins_u16sv, (string_stream *s, const char16_t *p, size_t n)) { *s << std::u16string_view(p, n); } VP_END(void)
+VP_FN(void, vp_ss_ins_u16str, (string_stream *s, const char16_t *p, size_t n)) { std::u16string t(p, n); *s << t; } VP_END(void)
+VP_FN(void, vp_ss_ins_u32sv, (string_stream *s, const char32_t *p, size_t n)) { *s << std::u32string_view(p, n); } VP_END(void)
+VP_FN(void, vp_ss_ins_u32str, (string_stream *s, const char32_t *p, size_t n)) { std::u32string t(p, n); *s << t; } VP_END(void)
+VP_FN(void, vp_ss_ins_wsv, (string_stream *s, const wchar_t *p, size_t n)) { *s << std::wstring_view(p, n); } VP_END(void)
+VP_FN(void, vp_ss_ins_wstr, (string_stream *s, const wchar_t *p, size_t n)) { std::wstring t(p, n); *s << t; } VP_END(void)
+VP_FN(void, vp_ss_ins_u8sv, (string_stream *s, const char *p, size_t n)) { *s << std::u8string_view(reinterpret_cast<const char8_t *>(p), n); } VP_END(void)
+#endif
 #if defined(ST_ENABLE_STL_STRINGS)
 VP_FN(void, vp_ss_ins_stdstring, (string_stream *s, const char *p, size_t n)) { std::string t(p, n); *s << t; } VP_END(void)
 VP_FN(void, vp_ss_ins_sv, (string_stream *s, const char *p, size_t n)) { *s << std::string_view(p, n); } VP_END(void)
